@@ -115,6 +115,9 @@ def text_number(s):
         return 'maybe', None
     if not any(ch.isdigit() for ch in s):
         return 'not', None
+    if '_' in s:
+        # a digit-group underscore is python's literal syntax; no locale of Excel reads "1_000" as a number
+        return 'not', None
     return 'maybe', None
 
 
